@@ -115,7 +115,7 @@ const (
 	ModelPrefix = "flytsaModel"
 )
 
-// modelsSource: what slices.All / slices.Values / maps.All / maps.Insert do, written over
+// modelsSource: what slices.All / slices.Values / maps.All / maps.Insert / (*sync.Once).Do do, written over
 // `any` (the engine is untyped where it matters). They are only ever entered through the
 // engine's redirection of calls to the library functions of the same name.
 const modelsSource = `package flyt
@@ -148,6 +148,11 @@ func flytsaModelMapsAll(m map[string]any) func(yield func(string, any) bool) {
 			}
 		}
 	}
+}
+
+// (*sync.Once).Do as seen by a single analysed call: the function runs, in place.
+func flytsaModelOnceDo(o any, f func()) {
+	f()
 }
 
 func flytsaModelMapsInsert(m map[string]any, seq func(yield func(string, any) bool)) {
